@@ -188,6 +188,9 @@ pub struct Shadow {
     pub rc_origin: BTreeMap<usize, &'static str>,
     /// blocks of filler objects created by destructor actions
     pub untracked: std::collections::BTreeSet<usize>,
+    /// C04 only: do not end the case at an O-own trip (see check_liveness)
+    pub tolerate_own: bool,
+    pub compromised: std::collections::BTreeSet<usize>,
 }
 
 pub static SH: Mutex<Option<Shadow>> = Mutex::new(None);
@@ -217,6 +220,8 @@ pub fn init(shared: &'static Shared, sequential: bool) {
         sequential,
         rc_origin: BTreeMap::new(),
         untracked: std::collections::BTreeSet::new(),
+        tolerate_own: false,
+        compromised: std::collections::BTreeSet::new(),
     });
     drop(g);
     circ::verif::set_event_hook(Some(on_event));
@@ -397,6 +402,13 @@ impl Shadow {
                 "{} of obj{} while definite strong owners exist: rc_slots={} iter_shares={} cells={:?}; trace: {}",
                 what, x, o.rc_owners, o.iter_shares, cells, self.tail(40)
             );
+            if self.tolerate_own && what != "dealloc" {
+                // C04's check: a destruction under a live owner is C01's business; go on (without
+                // touching the payload again) to see whether the object is also destructed twice
+                self.bump("own_violations_tolerated");
+                self.compromised.insert(x);
+                return;
+            }
             violation("C01", "O-own", &sig, &d);
         }
         let hs: Vec<SnapHold> = self
